@@ -27,6 +27,14 @@ def run(op, a):
             key = CKey(a[1], bool(a[2]))
             m = BitcoinMessage(a[3].decode('utf-8'))
             sig = SignMessage(key, m)
+            # OpenSSL's nonce is random: for one message in four keep signing until r or s has a leading
+            # zero byte (about 1 signature in 128), the shape in which padding mistakes show
+            if (len(a[3]) + a[1][0]) % 4 == 0:
+                for _ in range(700):
+                    raw = base64.b64decode(sig)
+                    if raw[1] == 0 or raw[33] == 0:
+                        break
+                    sig = SignMessage(key, m)
             addr = str(P2PKHBitcoinAddress.from_pubkey(key.pub))
             ok = VerifyMessage(addr, m, sig)
             return [base64.b64decode(sig), text(addr), bool(ok)]
